@@ -62,4 +62,26 @@ theorem deferred_segment_leaves_fields {σ : Type} (o : σ → List Cell → Nat
     scanObjLoop false o ini width (fuel + 1) s w = .line s := by
   simp only [scanObjLoop, Bool.false_eq_true, if_false, hfit, hdefer, if_true]
 
+/-- **scan_state_independent_of_width.** Two scanners over the same text with DIFFERENT widths — so with different lines and
+different `Scan` calls deferring different segments — neither of which meets a word longer than its line (`WordsFit`: the
+long-word branch, the one place that resets the state to −1, is not taken): whenever they have the same non-empty text left,
+they hold the same state.  The state stored across `Scan` calls is a function of the text consumed, for every segmenter with
+non-empty segments (`OracleOK`). -/
+theorem scan_state_independent_of_width {σ : Type} (o : σ → List Cell → Nat × Bool × σ) (hok : VaxisModel.Lemmas.Wrap.OracleOK o)
+    (ini : σ) (text : List Cell) (w1 w2 : Nat) (hf1 : WordsFit o w1) (hf2 : WordsFit o w2)
+    (s1 s2 : Obj σ) (h1 : Reach o ini w1 text s1) (h2 : Reach o ini w2 text s2)
+    (hr : s1.rest = s2.rest) (hne : s1.rest ≠ []) : s1.state = s2.state := by
+  have a1 := reach_ownFrom o ini w1 text hf1 s1 h1
+  have a2 := reach_ownFrom o ini w2 text hf2 s2 h2
+  rw [← hr] at a2
+  exact chain_state_unique o hok ini text s1.rest s1.state s2.state a1 a2 hne
+
+/-- One `Scan` keeps the scanner on the segmenter's path from the start of the text, or resets the state to −1 (the long-word
+branch) — nothing else can happen to the pair. -/
+theorem scan_keeps_path_or_resets {σ : Type} (o : σ → List Cell → Nat × Bool × σ) (ini : σ) (width : Nat) (text : List Cell)
+    (fuel : Nat) (s s' : Obj σ) (w : Nat) (h : OwnFrom o ini text s.rest s.state)
+    (hs : scanObjLoop false o ini width fuel s w = .line s') :
+    OwnFrom o ini text s'.rest s'.state ∨ s'.state = ini :=
+  scanObjLoop_ownFrom o ini width text fuel s s' w h hs
+
 end VaxisModel.Props.C16Obj
